@@ -586,6 +586,9 @@ namespace g
    struct G27 : seq< star< ud >, eof > {};
    struct G28 : seq< star< sor< ababc, aba, x > >, eof > {};
    struct G29 : seq< star< nonl >, nlf, star< x > > {};
+   // known finding (see known_findings.json): everything asks for size( size_t( -1 ) )
+   struct G30 : everything {};
+   struct G31 : seq< a, everything > {};
    // clang-format on
 }  // namespace g
 
@@ -892,6 +895,10 @@ struct gram
    result ( *run )( const spec&, const std::string&, const scratch& );
 };
 
+// look-ahead annotation of the grammars that contain `everything` (amount size_t( -1 )): an
+// overflow_error would always be justified; it also marks the grammar for the known-finding class
+static constexpr std::size_t WRAP_LOOKAHEAD = std::size_t( 1 ) << 40;
+
 // only the grammars of this part are instantiated (if constexpr inside a template)
 template< int I, typename R >
 void reg( std::vector< gram >& v, const char* text, const char* alphabet, const std::size_t la, const std::size_t dm, std::vector< std::string > tokens )
@@ -936,6 +943,8 @@ static std::vector< gram > grammars()
    C07_G( 27, G27, "seq< star< utf8::any [action: discard_input_on_success] >, eof >", "a\xc3\xa9", 4, 4, "a", "\xc3\xa9", "\xe2\x82\xac", "\xf0\x9f\x98\x80" );
    C07_G( 28, G28, "seq< star< sor< seq< a, b, a, b, c >, seq< a, b, a >, any > >, eof >", "abc", 1, 0, "ababc", "aba", "ab", "c" );
    C07_G( 29, G29, "seq< star< not_one<'\\r','\\n'> >, eolf, star< any > >", "a\r\n", 2, 0, "a", "\r\n", "\n", "a\r" );
+   C07_G( 30, G30, "everything", "abc", WRAP_LOOKAHEAD, 0, "abc", "a", "def" );
+   C07_G( 31, G31, "seq< one<'a'>, everything >", "abc", WRAP_LOOKAHEAD, 0, "abc", "a", "def" );
    return v;
 }
 
@@ -1003,12 +1012,19 @@ static void compare( const gram& G, const spec& s, const std::string& data, cons
    }
    else if( !( got == base ) ) {
       why = "result differs from memory_input<eager>";
+      // the recorded class: a grammar with `everything` on a buffered input succeeds like memory_input,
+      // with the same actions, but has consumed fewer bytes (only what was already buffered, because
+      // m_current.data + size_t( -1 ) wraps in require()); anything else keeps its own description
+      const bool buffered = ( s.k == cls::buf || s.k == cls::istream || s.k == cls::cstream || s.k == cls::cstream_file || s.k == cls::istream_file );
+      if( ( G.lookahead == WRAP_LOOKAHEAD ) && buffered && ( base.kind == 'T' ) && ( got.kind == 'T' ) && ( got.b < base.b ) && ( got.evs == base.evs ) ) {
+         why = "EVERYTHING-WRAP";
+      }
    }
    if( why.empty() ) {
       return;
    }
    ++t.mismatches;
-   const int ki = static_cast< int >( s.k );
+   const int ki = static_cast< int >( s.k ) + ( ( why == "EVERYTHING-WRAP" ) ? 16 : 0 );
    if( t.reported[ ki ]++ == 0 ) {
       std::string l = "MISMATCH grammar=" + std::to_string( G.index ) + " class=" + cls_name( s.k );
       l += " maximum=" + std::to_string( s.maximum ) + " chunk=" + std::to_string( s.chunk );
